@@ -1,7 +1,8 @@
 (* Extract/C07.v — extraction of the C07 model for the correspondence driver.
    Directives in force: only those of the two standard files required here. *)
 From Coq Require Extraction ExtrOcamlBasic ExtrOcamlZBigInt.
-From Verif Require Import Lib.Bytes Gen.GenNetworks Model.CoinSelect Model.TxCreate Model.BumpFee.
+From Verif Require Import Lib.Bytes Gen.GenNetworks Model.CoinSelect Model.TxCreate Model.BumpFee Model.TxCreateHistory.
 Extraction Language OCaml.
 Extraction "../ocaml/c07_model.ml" bz zb lib_select_inputs tx_create send_gen sweep_gen tx_bumpfee wallet_bumpfee
-  calculate_fee estimate_size fee_of rate_of net_by_index nw_dust_amount nw_fee_min nw_fee_max.
+  calculate_fee estimate_size fee_of rate_of net_by_index nw_dust_amount nw_fee_min nw_fee_max
+  h_run h_empty spendable.
